@@ -286,3 +286,130 @@ def check_walk(ctx, rep, rule='T-walk'):
             rep.ob(rule, 'contour-appended', len(fin) == 1, 'a finished contour must be pushed onto `contours` exactly once (found %d)' % len(fin),
                    loc=b.loc(b.j['line_lo']), reason='dominance')
     rep.floor(rule, 'walk paths', n, 3)
+
+
+# ------------------------------------------------------------------------------- T-vertex-cycle
+
+PIO = 'boolean::connect_edges::precompute_iteration_order'
+
+
+def _ix(v, names):
+    """canonical text of an index expression over the group boundaries i0 (group start), i1 (end of R events), i2 (end of L events)"""
+    x = strip_upd(v)
+    if x[0] == 'havoc':
+        return names.get((x[1], x[2]), 'h%s_%s' % (x[1], x[2]))
+    if x[0] == 'field' and str(x[2]) == '0':
+        y = strip_upd(x[1])
+        if y[0] == 'op' and y[1] in ('addwithoverflow', 'subwithoverflow') and len(y) == 4 and sym.is_const(strip_upd(y[3])):
+            return '%s%s%d' % (_ix(y[2], names), '+' if y[1].startswith('add') else '-', strip_upd(y[3])[1])
+        if y[0] == 'variant' and y[2] == 'Some':
+            it = strip_upd(y[1])
+            if it[0] in ('call', 'pcall') and it[1].endswith('::next'):
+                return 'j'
+    if x[0] == 'op' and x[1] in ('add', 'sub') and len(x) == 4 and sym.is_const(strip_upd(x[3])):
+        return '%s%s%d' % (_ix(x[2], names), '+' if x[1] == 'add' else '-', strip_upd(x[3])[1])
+    if sym.is_const(x):
+        return str(x[1])
+    return '?' + show(noepoch(x))[:30]
+
+
+def check_vertex_cycle(ctx, rep, rule='T-vertex-cycle'):
+    """precompute_iteration_order: within one vertex group [R events i0..i1)[L events i1..i2) the map must be the cycle
+    R ascending -> last L -> L descending -> first R"""
+    b, ps = rep.explore(ctx, PIO, rule)
+    if b is None:
+        return
+    heads = sorted(b.loops())
+    if len(heads) != 5:
+        rep.ob(rule, 'five-loops', False, 'precompute_iteration_order has %d loops; the rule models the group loop, the R scan, the L scan and the two '
+               'chain loops' % len(heads), loc=b.loc(b.j['line_lo']), reason='cannot-tabulate')
+        return
+    # the scan variable i is the local havoc'd at the first three headers
+    ilocal = None
+    for p in ps:
+        for e in p.events:
+            if e['k'] == 'loophead' and e['bb'] == heads[1]:
+                for (v, c) in p.conds:
+                    for y in sym.walk(v):
+                        if y[0] == 'havoc' and y[1] == heads[0]:
+                            ilocal = y[2]
+    if ilocal is None:
+        rep.ob(rule, 'scan-variable', False, 'cannot identify the scan variable of the group loop', loc=b.loc(b.j['line_lo']), reason='cannot-tabulate')
+        return
+    names = {(heads[0], ilocal): 'i0', (heads[1], ilocal): 'i1', (heads[2], ilocal): 'i2'}
+    got = set()
+    ranges = set()
+    for p in ps:
+        has_r = has_l = None
+        for (v, c) in p.conds:
+            x = strip_upd(v)
+            if x[0] == 'op' and x[1] == 'gt' and len(x) == 4:
+                a, bb_ = _ix(x[2], names), _ix(x[3], names)
+                if (a, bb_) == ('i1', 'i0'):
+                    has_r = c[1]
+                elif (a, bb_) == ('i2', 'i1'):
+                    has_l = c[1]
+        for e in p.events:
+            if e['k'] == 'store' and e['loc'][0][0] == 'ext':
+                base = strip_upd(e['loc'][0][1])
+                if base[0] in ('call', 'pcall') and base[1].endswith('index_mut') and len(base[2]) == 2:
+                    idx = _ix(base[2][1], names)
+                    val = _ix(e['val'], names)
+                    if idx == 'j':
+                        got.add(('chain', val))
+                    else:
+                        got.add((idx, val, has_r, has_l))
+            if e['k'] == 'call' and e.get('depth', 0) == 0 and e['callee'].endswith('into_iter'):
+                a = strip_upd(e['args'][0])
+                if a[0] == 'agg' and a[5].endswith('Range'):
+                    ranges.add(('excl', _ix(a[4][0], names), _ix(a[4][1], names)))
+                elif a[0] in ('call', 'pcall') and a[1].endswith('RangeInclusive::<Idx>::new'):
+                    ranges.add(('incl', _ix(a[2][0], names), _ix(a[2][1], names)))
+    exp_fixed = {('i1-1', 'i2-1', True, True), ('i1-1', 'i0', True, False), ('i1', 'i0', True, True), ('i1', 'i2-1', False, True)}
+    fixed = set(g for g in got if g[0] != 'chain')
+    chains = set(g[1] for g in got if g[0] == 'chain')
+    ok1 = fixed == exp_fixed
+    rep.ob(rule, 'group-ends', ok1,
+           'end links of a vertex group must be map[i1-1] = (L events ? i2-1 : i0) and map[i1] = (R events ? i0 : i2-1) (i0 group start, i1 end of R '
+           'events, i2 end of L events); unexpected %s, missing %s' % (sorted(map(str, fixed - exp_fixed)), sorted(map(str, exp_fixed - fixed))),
+           loc=b.loc(b.j['line_lo']), reason='table-row', expected=sorted(map(str, exp_fixed)), found=sorted(map(str, fixed)))
+    ok2 = chains == {'j+1', 'j-1'} and ranges >= {('excl', 'i0', 'i1-1'), ('incl', 'i1+1', 'i2-1')}
+    rep.ob(rule, 'chains', ok2,
+           'R events must be chained upwards (map[j] = j+1 for j in i0..i1-1) and L events downwards (map[j] = j-1 for j in i1+1..=i2-1); found '
+           'chains %s over ranges %s' % (sorted(chains), sorted(ranges)), loc=b.loc(b.j['line_lo']), reason='table-row')
+    # the scans: R scan stops at the first event that is not identical to data[i0] or is a left event; L scan at the first non-identical
+    scans = {heads[1]: set(), heads[2]: set()}
+    for p in ps:
+        if p.end != 'backedge' or p.end_info not in scans:
+            continue
+        last = max(i for i, e in enumerate(p.events) if e['k'] == 'loophead' and e['bb'] == p.end_info)
+        cs = []
+        for e in p.events[last:]:
+            if e['k'] == 'call' and e['callee'].endswith('Fn::call'):
+                f_ = strip_upd(e['args'][0])
+                which = 'identical' if (f_[0] == 'ref' and f_[1][0][2] == 2) or (f_[0] == 'param' and f_[1] == 2) else 'is_left'
+                args = strip_upd(e['args'][1])
+                idxs = []
+                for a in (args[4] if args[0] == 'agg' else []):
+                    aa = strip_upd(a)
+                    ix = '?'
+                    if aa[0] == 'ref' and aa[1][1] and aa[1][1][-1][0] == 'i':
+                        ix = _ix(aa[1][1][-1][1], names)
+                    elif aa[0] == 'ref' and aa[1][0][0] == 'loc' and aa[1] in p.final.mem:
+                        # x_ref: a local holding &data[i0]
+                        inner = strip_upd(p.final.mem[aa[1]])
+                        if inner[0] == 'ref' and inner[1][1] and inner[1][1][-1][0] == 'i':
+                            ix = _ix(inner[1][1][-1][1], names)
+                    idxs.append(ix)
+                which = '%s(%s)' % (which, ','.join(idxs))
+                res = None
+                for (v, c) in p.conds:
+                    if noepoch(strip_upd(v)) == noepoch(strip_upd(e['ret'])):
+                        res = c[1]
+                cs.append((which, res))
+        scans[p.end_info].add(tuple(cs))
+    r_ok = scans[heads[1]] == {(('identical(i0,i1)', True), ('is_left(i1)', False))}
+    l_ok = bool(scans[heads[2]]) and all(s and s[0] == ('identical(i0,i2)', True) for s in scans[heads[2]])
+    rep.ob(rule, 'scans', r_ok and l_ok,
+           'the R scan must advance over events identical to the group\'s first event that are not left events, the L scan over identical '
+           'events; found R scan %s, L scan %s' % (sorted(scans[heads[1]]), sorted(scans[heads[2]])), loc=b.loc(b.j['line_lo']), reason='table-row')
